@@ -1,4 +1,5 @@
 import Dyce.PoolHProofs
+import Dyce.AffineProofs
 /-!
 # C03 — Selective pool sums `P.h(*which)` are exact, including every short-circuit
 
@@ -13,7 +14,9 @@ import Dyce.PoolHProofs
 |---|---|
 | `P.h()` = sum of the dice, exact counts | `C03_noargs` |
 | `P.h(*which)`: IndexError exactly when indexing raises, empty selection → empty histogram, otherwise the brute-force count of `Σ_{j∈idxs} sorted(t)[j] = z` — through the `h() * (i // n)` short-circuit and through roll enumeration alike | `C03_selection` |
-| equivalent selections (same resolved positions up to order) | `C03_equivalent_selections` (both sides equal the same specification value) |
+| equivalent selections (same resolved positions) | `C03_equivalent_selections` |
+| permuted / regrouped identifiers (the same positions in another order) | `C03_permuted_selections` |
+| relabelling all faces by an increasing affine map relabels the result by the same map (`a·s + b·m` for `m` selected positions) | `C03_affine_increasing` (the decreasing case — mirrored positions — is not proved) |
 
 The outcome type is any `AddCommMonoid` with a Boolean total order (`Int`, `ℚ`, …).
 -/
@@ -51,6 +54,93 @@ theorem C03_equivalent_selections (hle : TotalOrderB le) (dice : List (Hist α))
   obtain ⟨H₁, e₁, c₁⟩ := (C03_selection hle dice hd s₁ ss₁).2 idxs h₁
   obtain ⟨H₂, e₂, c₂⟩ := (C03_selection hle dice hd s₂ ss₂).2 idxs h₂
   exact ⟨H₁, H₂, e₁, e₂, fun z => by rw [c₁ z, c₂ z]⟩
+
+/-- selections whose resolved positions are permutations of one another (permuted or regrouped
+identifiers) give histograms with identical counts -/
+theorem C03_permuted_selections (hle : TotalOrderB le) (dice : List (Hist α)) (hd : DiceOK le dice)
+    (s₁ : Sel) (ss₁ : List Sel) (s₂ : Sel) (ss₂ : List Sel) (idxs₁ idxs₂ : List Nat)
+    (h₁ : resolve dice.length (s₁ :: ss₁) = .ok idxs₁) (h₂ : resolve dice.length (s₂ :: ss₂) = .ok idxs₂)
+    (hp : idxs₁ ~ idxs₂) :
+    ∃ H₁ H₂, poolH le 0 (· + ·) (fun m x => m • x) dice (s₁ :: ss₁) = .ok H₁ ∧
+      poolH le 0 (· + ·) (fun m x => m • x) dice (s₂ :: ss₂) = .ok H₂ ∧
+      ∀ z, countOf z H₁ = countOf z H₂ := by
+  obtain ⟨H₁, e₁, c₁⟩ := (C03_selection hle dice hd s₁ ss₁).2 idxs₁ h₁
+  obtain ⟨H₂, e₂, c₂⟩ := (C03_selection hle dice hd s₂ ss₂).2 idxs₂ h₂
+  refine ⟨H₁, H₂, e₁, e₂, fun z => ?_⟩
+  rw [c₁ z, c₂ z]
+  have hnil : (idxs₁ = [] ∨ dice = []) ↔ (idxs₂ = [] ∨ dice = []) := by
+    constructor
+    · rintro (h | h)
+      · left; subst h; exact List.Perm.eq_nil hp.symm
+      · right; exact h
+    · rintro (h | h)
+      · left; subst h; exact List.Perm.eq_nil hp
+      · right; exact h
+  by_cases h : idxs₁ = [] ∨ dice = []
+  · rw [if_pos h, if_pos (hnil.mp h)]
+  · rw [if_neg h, if_neg (fun h' => h (hnil.mpr h'))]
+    apply wsum_congr'
+    intro tw _
+    rw [selSum_perm tw.1 hp]
+
+end Dyce
+
+namespace Dyce
+open List
+
+theorem leZ_total : TotalOrderB leZ where
+  refl a := by simp [leZ]
+  trans a b c := by simp only [leZ, decide_eq_true_eq]; omega
+  total a b := by simp only [leZ, Bool.or_eq_true, decide_eq_true_eq]; omega
+  antisymm a b := by simp only [leZ, decide_eq_true_eq]; omega
+
+theorem diceOK_relabel (a b : Int) (ha : 0 < a) (dice : List (Hist Int)) (hd : DiceOK leZ dice) :
+    DiceOK leZ (relabelDice (fun x => a * x + b) dice) := by
+  intro h' hh'
+  obtain ⟨h, hh, rfl⟩ := List.mem_map.mp hh'
+  obtain ⟨hs, hT⟩ := hd h hh
+  constructor
+  · rw [List.pairwise_map]
+    apply hs.imp
+    intro x y hxy
+    simp only [leZ, decide_eq_true_eq, ne_eq] at hxy ⊢
+    constructor
+    · nlinarith [hxy.1]
+    · intro heq
+      apply hxy.2
+      have : a * x.1 = a * y.1 := by linarith
+      exact Int.eq_of_mul_eq_mul_left (by omega) this
+  · have : total (h.map fun oc => ((fun x => a * x + b) oc.1, oc.2)) = total h := by
+      simp [total, List.map_map, Function.comp_def]
+    rw [this]; exact hT
+
+/-- **increasing affine relabelling**: `P'.h(*which)` of the pool with every face `x` replaced by
+`a·x + b` (`a > 0`) is `P.h(*which)` relabelled by `s ↦ a·s + b·m`, `m` = number of selected
+positions — exact counts -/
+theorem C03_affine_increasing (a b : Int) (ha : 0 < a) (dice : List (Hist Int)) (hd : DiceOK leZ dice)
+    (s : Sel) (ss : List Sel) (idxs : List Nat) (hres : resolve dice.length (s :: ss) = .ok idxs) :
+    ∃ H H', poolH leZ 0 (· + ·) (fun m x => m • x) dice (s :: ss) = .ok H ∧
+      poolH leZ 0 (· + ·) (fun m x => m • x) (relabelDice (fun x => a * x + b) dice) (s :: ss) = .ok H' ∧
+      ∀ z, countOf (a * z + b * idxs.length) H' = countOf z H := by
+  have hlen : (relabelDice (fun x => a * x + b) dice).length = dice.length := by simp [relabelDice]
+  obtain ⟨H, e, c⟩ := (C03_selection leZ_total dice hd s ss).2 idxs hres
+  obtain ⟨H', e', c'⟩ := (C03_selection leZ_total _ (diceOK_relabel a b ha dice hd) s ss).2 idxs
+    (by rw [hlen]; exact hres)
+  refine ⟨H, H', e, e', fun z => ?_⟩
+  rw [c z, c' (a * z + b * idxs.length)]
+  have hnil : (idxs = [] ∨ relabelDice (fun x => a * x + b) dice = []) ↔ (idxs = [] ∨ dice = []) := by
+    have : relabelDice (fun x => a * x + b) dice = [] ↔ dice = [] := by simp [relabelDice]
+    rw [this]
+  by_cases h : idxs = [] ∨ dice = []
+  · rw [if_pos h, if_pos (hnil.mpr h)]
+  · rw [if_neg h, if_neg (fun h' => h (hnil.mp h'))]
+    exact spec_affine a b ha dice idxs (resolve_lt dice.length (s :: ss) idxs hres) z
+
+end Dyce
+
+namespace Dyce
+open List
+variable {α : Type} [DecidableEq α] [AddCommMonoid α] {le : α → α → Bool}
 
 /-! non-vacuity: the hypotheses are met by a concrete pool and selection -/
 example : DiceOK (fun a b : Int => decide (a ≤ b)) [[(1, 1), (2, 1)], [(1, 2), (3, 0), (4, 1)]] := by
